@@ -1,4 +1,5 @@
 import Mkdb.Proofs.Select
+import Mkdb.Proofs.AliasCapture
 import Mkdb.Props.C10
 /-!
 # C05 — single-table SELECT returns what its clauses mean
@@ -7,12 +8,15 @@ Property theorems only (proofs in `Mkdb/Proofs/Select.lean`).  Quantifier: every
 content, every query (any WHERE condition, select list, ORDER BY keys, OFFSET, LIMIT).
 -/
 namespace Mkdb.Exec
-open Mkdb.Sql Mkdb.Exec.SelectP
+open Mkdb.Sql Mkdb.Exec.SelectP Mkdb.Exec.AliasCaptureP
 
 /-- **C05.select_correct**: the result of a single-table SELECT without aggregates and without
 GROUP BY is exactly: the rows of the table that satisfy the WHERE condition (in insertion order),
 projected by the select list, sorted by the resolved ORDER BY keys, then OFFSET rows
 dropped and at most LIMIT rows kept — nothing else happens, in that order.
+(The keys are resolved against `sortFields q.list hdr`: the output header in which an aliased
+column has lost its table id, so that a qualified key `t.b` is not captured by the alias `b` of
+another column - `C05_qualified_key_not_captured_by_alias`.)
 (`hgb : q.groupBy = []`: a GROUP BY groups even when the select list holds no aggregate -
 `SELECT a FROM t GROUP BY a` is one row per distinct `a`, which is C07's
 `C07_group_by_without_aggregate`, not this theorem.) -/
@@ -27,7 +31,7 @@ theorem C05_select_correct {fetch : Bytes → Option Table} {q : Select} {t : Ta
                     filtered = src.filter (keeps c fields)
         | none => filtered = src) ∧
       projectColumns q.list fields filtered = .ok (projected, hdr) ∧
-      resolveSortKeys q.orderBy hdr = .ok keys ∧
+      resolveSortKeys q.orderBy (sortFields q.list hdr) = .ok keys ∧
       (∀ a ∈ projected, ∀ b ∈ projected, KeyComparable keys a b) ∧
       rows = cut q.lim (sortRows keys projected) :=
   select_single_table hfrom hagg hgb h
@@ -67,6 +71,31 @@ theorem C05_limit_offset {fetch : Bytes → Option Table} {q : Select} {t : Tabl
               if q.lim.limitActive then d.take q.lim.limit.toNat else d) ∧
       Spec.sortedBy keys rows = true :=
   limit_offset_spec hfrom hagg hgb h
+
+/-- **C05.qualified_key_not_captured_by_alias**: a qualified ORDER BY key finds only a non-aliased
+column of the table it names.  For a select list `sl` and an output header `hdr` of the same length
+(any select list but `*`), if the qualified reference `c` resolves - in the header `sortColumns` is
+handed, `sortFields sl hdr` - to position `i`, then the `i`-th select-list element has no alias and
+the `i`-th output column is the column `c.qual.c.name` itself.  (`SELECT a AS b, b AS c FROM t
+ORDER BY t.b` used to sort by the first column, the alias `b` of `a`: the defect repaired in
+`sortColumns`; see the example below.) -/
+theorem C05_qualified_key_not_captured_by_alias (sl : List DerivedCol) (hdr : List Field)
+    (hlen : sl.length = hdr.length) (c : ColRef) (hq : c.qual ≠ []) (i : Nat)
+    (h : findColumn c (sortFields sl hdr) = .ok i) :
+    (sl[i]?).map (·.alias) = some [] ∧ hdr[i]? = some ⟨c.qual, c.name⟩ :=
+  qualified_key_not_captured_by_alias sl hdr hlen c hq i h
+
+/-- `sortFields` only blanks table ids: the positions of the header are unchanged -/
+theorem C05_sortFields_length (sl : List DerivedCol) (hdr : List Field) :
+    (sortFields sl hdr).length = hdr.length := sortFields_length sl hdr
+
+/-- `SELECT a AS b, b AS c FROM t ORDER BY t.b`: the key is refused (no output column is the column
+`b` of `t`), whereas resolved against the raw output header it was the alias `b` of column `a` -/
+example :
+    findColumn ⟨[116], [98]⟩
+      (sortFields [⟨.expr (.val (.col ⟨[], [97]⟩)), [98]⟩, ⟨.expr (.val (.col ⟨[], [98]⟩)), [99]⟩]
+        [⟨[116], [98]⟩, ⟨[116], [99]⟩]) = .err .fieldNotFound ∧
+    findColumn ⟨[116], [98]⟩ [⟨[116], [98]⟩, ⟨[116], [99]⟩] = .ok 0 := by decide
 
 /-- **C05.where**: the WHERE step keeps exactly the rows on which the condition holds, in order. -/
 theorem C05_where {c : Cond} {fields : List Field} {rows out : List Row}
